@@ -483,10 +483,11 @@ pub fn witness_shape(ctx: &TreeCtx, m: &ProofM) -> &'static str {
     if shifted {
         return "bytes moved across the boundary of sibling leaves (leaves are concatenated unhashed, without length)";
     }
-    if false_claims.iter().all(|(_, l)| ctx.leaves.iter().any(|c| c == l)) {
+    if false_claims.iter().all(|(_, l)| ctx.mmr.nodes.iter().any(|(_, v)| v == l)) {
         // e.g. the leaf of the last, single-leaf peak presented at the left position of the
-        // neighbouring peak: bagging H(right peak || left peak) equals an inner merge H(left || right)
-        return "committed leaf accepted at a position other than its own (peak bagging is indistinguishable from an inner merge)";
+        // neighbouring peak, or that neighbouring peak presented as the right leaf next to it:
+        // bagging H(right peak || left peak) equals an inner merge H(left || right)
+        return "peak bagging H(right||left) is indistinguishable from an inner merge (a committed leaf or a peak node accepted at a wrong position)";
     }
     "other"
 }
